@@ -42,7 +42,7 @@ SPEC = os.path.join(VERIF, 'specs', 'Editor')
 PID = os.getpid()
 INVS = ['TypeOK', 'CursorInRange', 'ChunkIndependent', 'NoSecretShown',
         'RawHoldsNothing', 'HistoryLossless', 'KillYankRestores',
-        'InsertBounded', 'NoSkew', 'BellSane']
+        'InsertBounded', 'LineBounded', 'NoSkew', 'BellSane']
 
 JVM = {'_JAVA_OPTIONS': '-XX:TieredStopAtLevel=1 -XX:ParallelGCThreads=2 '
                         '-XX:CICompilerCount=1'}
@@ -68,7 +68,8 @@ ALLAPI = ['echo_off', 'echo_on', 'raw', 'cooked', 'prompt', 'outln',
 RULES = dict(KeepPend='TRUE', KeepDec='TRUE', ScrubKill='TRUE',
              HistSkipsHidden='TRUE', SwitchAtOnce='TRUE',
              HandoverClears='TRUE', HandoverResets='TRUE', ClampRoom='TRUE',
-             ResizeAtCursor='TRUE', YankAtCursor='TRUE', DownRight='TRUE')
+             ResizeAtCursor='TRUE', YankAtCursor='TRUE', DownRight='TRUE',
+             YankUnclamped='FALSE')
 BASE = dict(MaxKeys=4, MaxApi=0, MaxLine=3, MaxCuts=1, HistSize=2, MaxLen=0,
             LineEcho='TRUE', KeySet=S('n'), ApiSet='{}', W1=8, W2=11,
             UniqueIds='FALSE', KeepLog='FALSE', **RULES)
@@ -160,10 +161,11 @@ def has_inner_cut(log):
 # one replay and its verdicts
 # ---------------------------------------------------------------------------
 
-def judge(ctx, drv, world, log, final, consts, deco, counters, unsplit):
+def judge(ctx, drv, world, log, final, consts, deco, counters, unsplit,
+          percut=False):
     """returns (unexplained violations, unexplained divergences, replay)"""
     tags = drv.script_tags(log, consts, final, deco['term'])
-    r = drv.Replay(world, log, final, consts, deco).run()
+    r = drv.Replay(world, log, final, consts, deco).run(percut=percut)
     viols = list(r.violations)
     if unsplit and not viols:
         u = drv.Replay(world, log, final, consts, deco)
@@ -347,6 +349,108 @@ def self_test(ctx, drv, pools):
 
 
 # ---------------------------------------------------------------------------
+# bounded work: the part that checks/c10.py runs as well
+# ---------------------------------------------------------------------------
+
+WORK_KEYS = ['n', 'm', 'ctrlu', 'ctrlk', 'ctrly', 'ctrlb', 'ctrla', 'cr',
+             'ctrlp', 'ctrln', 'bs', 'tab', 'bang']
+WORK_API = ['setinput3', 'reg_tab_repl', 'reg_bang_true', 'prompt']
+
+
+def editor_work_cases(ctx, quick=True, seed=None):
+    """max_line_length bounds what hostile input can make of the input line
+    (every key redraws it): Editor.tla with max_line_length = 3 / 4 checked
+    for LineBounded (+ the variant YankUnclamped that TLC must reject), then
+    behaviours that lengthen the line in every way the editor has (typed
+    text, yank, history, key handlers, set_input) replayed into the real
+    editor one byte per chunk with the monitors LineBounded and WorkBounded
+    (and the other X06 monitors).  No wide characters: the listed early-wrap
+    finding of X06 stays out of play.  Violations go to ctx (C10 or X06)."""
+    from harness.drivers import editor as drv
+    seed = ctx.seed if seed is None else seed
+    rnd = random.Random(seed * 131 + 7)
+    os.makedirs(tlc.WORK, exist_ok=True)
+    counters = {}
+    num = 1 if quick else 6
+    base = dict(MaxLine=8, MaxCuts=0, HistSize=2, W1=7, W2=11)
+    sims = [
+        ('w_mix', 380 * num, dict(base, MaxLen=3, MaxKeys=14, MaxApi=3,
+                                  KeySet=S(*WORK_KEYS), ApiSet=S(*WORK_API))),
+        # the ways a line doubles: kill + yank + yank, again and again
+        ('w_yank', 120 * num, dict(base, MaxLen=4, MaxKeys=18, MaxApi=1,
+                                   MaxLine=12,
+                                   KeySet=S('n', 'ctrlu', 'ctrlk', 'ctrly',
+                                            'ctrla'),
+                                   ApiSet=S('setinput3'))),
+        ('w_pump', 120 * num, dict(base, MaxLen=4, MaxKeys=30, MaxApi=0,
+                                   MaxLine=12,
+                                   KeySet=S('n', 'ctrlu', 'ctrly'))),
+        ('w_hist', 120 * num, dict(base, MaxLen=3, MaxKeys=16, MaxApi=2,
+                                   KeySet=S('n', 'cr', 'ctrlp', 'ctrln',
+                                            'ctrly', 'ctrlu', 'tab'),
+                                   ApiSet=S('setinput3', 'reg_tab_repl'))),
+    ]
+    ex = concurrent.futures.ThreadPoolExecutor(max_workers=5)
+    f_sim = [ex.submit(simulate, f'{ctx.pid}{n}', kw, cnt, seed * 1000 + 17 + i,
+                       160)
+             for i, (n, cnt, kw) in enumerate(sims)]
+    small = dict(MaxLen=2, MaxLine=6, MaxKeys=5, MaxApi=1, MaxCuts=0,
+                 KeySet=S('n', 'ctrlu', 'ctrly', 'cr', 'ctrlp', 'tab'),
+                 ApiSet=S('setinput3', 'reg_tab_repl'))
+    f_ok = ex.submit(mc, f'{ctx.pid}w_design', small, INVS, 2)
+    f_bad = ex.submit(mc, f'{ctx.pid}w_unclamped',
+                      dict(small, YankUnclamped='TRUE'), ['LineBounded'], 2)
+    total = 0
+    work = 0.0
+    longest = 0
+    for (name, cnt, kw), fut in zip(sims, f_sim):
+        lines, res, d = fut.result()
+        ctx.require(res.violation is None and not res.error,
+                    f'Editor simulate {name}: {res.violation} {res.error}\n' +
+                    res.output[-2000:])
+        ctx.add_tlc(f'Editor work simulate {name} {kw}', res)
+        ctx.require(len(lines) > cnt // 2,
+                    f'{name}: only {len(lines)} behaviours')
+        rnd.shuffle(lines)
+        world = drv.World.for_consts(d)
+        try:
+            for line in lines[:cnt]:
+                log, final = parse_line(line)
+                if any(st['nid'] > drv.MAXID for _l, st, _c in log):
+                    continue
+                _b, _d, r = judge(ctx, drv, world, log, final, d,
+                                  {'term': 'ansi'}, counters, False,
+                                  percut=True)
+                total += 1
+                work = max(work, r.work_max)
+                longest = max([longest] + [len(st['line'])
+                                           for _l, st, _c in log])
+                ctx.count(('editor-work', name, compact(log)),
+                          nontrivial=any(len(st['line']) >= int(d['MaxLen'])
+                                         for _l, st, _c in log))
+        finally:
+            world.stop()
+    ctx.require_tlc_ok(f'Editor work design {small}', f_ok.result())
+    ctx.require_tlc_ok('Editor work variant YankUnclamped', f_bad.result(),
+                       expect_violation='LineBounded')
+    ex.shutdown()
+    ctx.traces_validated(total)
+    ctx.require(total >= 500 * num, f'only {total} editor behaviours')
+    ctx.notes.append(
+        f'editor: {total} behaviours (max_line_length 3 / 4, longest model '
+        f'line {longest}) replayed one byte per chunk; largest output / '
+        f'allowance of a key {work:.2f}; violations ' + (', '.join(
+            f'{c}/{dd}={n}' for (c, dd), n in sorted(counters.items())
+            if c != 'unmodelled') or 'none'))
+    ctx.assumptions.append(
+        'line editor: one key / API call may cost 32 + 3 * terminal width + '
+        '2 * (UTF-8 bytes + columns of the longest line involved) bytes of '
+        'output; max_line_length bounds the line except for text the '
+        'application itself sets (set_input, key handlers)')
+    return total
+
+
+# ---------------------------------------------------------------------------
 
 def main(ctx):
     from harness.drivers import editor as drv
@@ -440,7 +544,7 @@ def main(ctx):
     num = 1 if quick else 8
     sims = [
         # (name, terminal type, number of behaviours, constants)
-        ('s_all', 'ansi', 700 * num,
+        ('s_all', 'ansi', 600 * num,
          dict(MaxKeys=9, MaxApi=4, MaxCuts=3, MaxLine=6, HistSize=3,
               KeySet=S(*ALLKEYS), ApiSet=S(*ALLAPI))),
         ('s_wrap', 'xterm', 400 * num,
@@ -462,7 +566,7 @@ def main(ctx):
                        'up', 'tab'),
               ApiSet=S('raw', 'cooked', 'prompt', 'outln', 'reg_tab_sig',
                        'echo_off', 'echo_on'))),
-        ('s_maxlen', 'ansi', 300 * num,
+        ('s_maxlen', 'ansi', 200 * num,
          dict(MaxKeys=10, MaxApi=4, MaxCuts=2, MaxLine=5, MaxLen=3,
               KeySet=S('n', 'w', 'm', 'cr', 'ctrlu', 'ctrlk', 'ctrly',
                        'ctrlp', 'ctrlb', 'ctrlf', 'bs', 'bang', 'tab',
@@ -503,6 +607,9 @@ def main(ctx):
         ('v_down', 'HistoryLossless',
          dict(DownRight='FALSE', MaxKeys=7, MaxCuts=0,
               KeySet=S('n', 'w', 'cr', 'ctrlp', 'ctrln')), INVS),
+        ('v_yankclamp', 'LineBounded',
+         dict(YankUnclamped='TRUE', MaxLen=2, MaxLine=6, MaxKeys=5, MaxCuts=0,
+              KeySet=S('n', 'ctrlu', 'ctrly')), ['LineBounded']),
         # the pinned tree's own rules (reported defects): rejected as well
         ('pinned_kill', 'NoSecretShown',
          dict(small, ScrubKill='FALSE', MaxKeys=3), INVS),
@@ -557,6 +664,7 @@ def main(ctx):
                 _b, _d, r = judge(ctx, drv, world, log, final, d,
                                   {'term': term}, counters, unsplit)
                 total += 1
+                stats['work'] = max(stats.get('work', 0), r.work_max)
                 stats['chunks'] += r.chunks
                 stats['bytes'] += r.nbyte
                 stats['unsplit'] += unsplit
@@ -617,12 +725,16 @@ def main(ctx):
                            expect_violation=exp)
     ex.shutdown()
 
+    # ---- bounded work (also the "editor" part of C10) ------------------------
+    editor_work_cases(ctx, quick)
+
     # ---- negative controls --------------------------------------------------
     self_test(ctx, drv, pools)
 
     ctx.notes.append(f'{total} behaviours replayed in {t_replay:.0f}s '
                      f'({stats["bytes"]} bytes in {stats["chunks"]} chunks; '
-                     f'{stats["unsplit"]} also sent unsplit)')
+                     f'{stats["unsplit"]} also sent unsplit); largest output '
+                     f'/ allowance of a chunk {stats.get("work", 0):.2f}')
     for (tag, defect), n in sorted((k_, v) for k_, v in counters.items()
                                    if k_[0] == 'unmodelled'):
         ctx.notes.append(f'{n} behaviours touching the reported defect '
